@@ -45,7 +45,7 @@ func cmdC02(r *RNG, n int, e *Emitter, args []string) {
 }
 
 func emitC02(e *Emitter, idx string, s, c clip.Paths64, ct clip.ClipType, fr clip.FillRule, rev, pc bool, info GenInfo) {
-	takeDiscards() // start from a clean event log
+	clearEvents()
 	s0, c0 := clonePaths(s), clonePaths(c)
 	var sol clip.Paths64
 	ok := true
